@@ -578,7 +578,22 @@ func (rc *rangeCtx) assign(l, r ast.Expr, tok token.Token, s ast.Stmt) {
 	if call, ok := r.(*ast.CallExpr); ok && isAppendTo(call, l) {
 		if ix, ok := l.(*ast.IndexExpr); ok {
 			if _, isMap := rc.info.TypeOf(ix.X).Underlying().(*types.Map); isMap {
-				rc.notes = append(rc.notes, "per-key collection "+exprStr(ix.X))
+				// m[k] = append(m[k], v): the per-key lists are independent of the iteration order only when no two
+				// iterations hit the same key, i.e. the key is an injective function of the (unique) range key
+				keyAtoms := map[types.Object]bool{}
+				rc.loopAtoms(ix.Index, keyAtoms, 0)
+				inj, _ := rc.injectiveKey(ix.Index)
+				hasRangeKey := false
+				if kid, ok := rc.rs.Key.(*ast.Ident); ok {
+					if ko := rc.obj(kid); ko != nil && keyAtoms[ko] {
+						hasRangeKey = true
+					}
+				}
+				if inj && hasRangeKey {
+					rc.notes = append(rc.notes, "per-key collection "+exprStr(ix.X)+" (one key per iteration)")
+					return
+				}
+				rc.collect[exprStr(l)] = l
 				return
 			}
 		}
@@ -819,6 +834,16 @@ func runE4(p *Program, sp *Spec, c *Collector) {
 						colls = append(colls, name+" is an unordered collection (no order-sensitive consumer found)")
 					}
 				}
+				if len(rc.bad) == 0 {
+					for name := range rc.collect {
+						if name == "<output>" || rc.sortAfter(name) != "" {
+							continue
+						}
+						if why := orderedProducerWhy(p, sp, rel(pk.PkgPath)); why != "" {
+							rc.bad = append(rc.bad, name+" is collected in map order, never sorted, and "+why)
+						}
+					}
+				}
 				if len(rc.bad) > 0 {
 					c.Ob(props, "E4.map-range", key, Violated, "order-dependent: "+strings.Join(rc.bad, "; "), pos, false)
 					return true
@@ -840,6 +865,18 @@ func runE4(p *Program, sp *Spec, c *Collector) {
 	c.Count("E4.map_ranges", nRanges)
 	if nRanges < sp.Tables.Floors["E4.map_ranges"] {
 		c.Anchor([]string{"C08"}, "E4: only %d map ranges found, floor is %d", nRanges, sp.Tables.Floors["E4.map_ranges"])
+	}
+	for _, op := range sp.Tables.OrderedProducers {
+		key := "orderedproducer:" + op.Pkg + " -> " + op.Consumer
+		if p.Func(op.Consumer) == nil {
+			c.Anchor(op.Props, "E4: ordered producer: consumer %s does not resolve", op.Consumer)
+			continue
+		}
+		if why := orderedProducerWhy(p, sp, op.Pkg); why != "" {
+			c.Ob(op.Props, "E4.ordered-producer", key, Discharged, "every map range of "+op.Pkg+" is held to a sorted result: "+why, p.FuncPos(p.Func(op.Consumer)), true)
+		} else {
+			c.Ob(op.Props, "E4.ordered-producer", key, Discharged, shortFn(op.Consumer)+" no longer selects among the results of "+op.Pkg+" by position: the entry binds nothing", p.FuncPos(p.Func(op.Consumer)), true)
+		}
 	}
 	runE4Orders(p, sp, c)
 	runE4Search(p, sp, c)
@@ -1053,7 +1090,9 @@ func runE4Orders(p *Program, sp *Spec, c *Collector) {
 						if less != nil {
 							// the closure captures the slice: resolve a[i] through free variables too
 							k, d, ok := comparatorOfClosure(less)
-							if ok {
+							if ok && !comparesSortedSlice(call.Call.Args[0], call.Call.Args[1], less) {
+								seenDesc = append(seenDesc, k+" "+d+" over the elements of ANOTHER slice than the one being sorted")
+							} else if ok {
 								seenDesc = append(seenDesc, k+" "+d)
 								if k == os.Key && d == os.Dir {
 									found = true
@@ -1449,7 +1488,119 @@ func (rc *rangeCtx) orderedConsumer(name string) string {
 		}
 		return true
 	})
-	return why
+	if why != "" {
+		return why
+	}
+	// the collection (or the map of lists it is an entry of) is the function's result: follow it into the callers
+	root := name
+	if i := strings.IndexAny(root, "[."); i > 0 {
+		root = root[:i]
+	}
+	returned := false
+	ast.Inspect(rc.fnDecl, func(n ast.Node) bool {
+		if ret, ok := n.(*ast.ReturnStmt); ok {
+			for _, r := range ret.Results {
+				if id := rootIdent(r); id != nil && id.Name == root {
+					returned = true
+				}
+			}
+		}
+		return true
+	})
+	self := rc.p.Func(rc.fnKey)
+	if !returned || self == nil || self.Signature.Results().Len() != 1 {
+		return ""
+	}
+	for _, caller := range rc.p.OwnFuncs {
+		for _, b := range caller.Blocks {
+			for _, in := range b.Instrs {
+				call, ok := in.(*ssa.Call)
+				if !ok || call.Call.StaticCallee() != self {
+					continue
+				}
+				if w := rc.p.firstMatchThrough(caller, call, 0, map[*ssa.Function]bool{}); w != "" {
+					return "is returned to " + shortFn(rc.p.FuncKey(caller)) + " (" + rc.p.InstrPos(call) + "): " + w
+				}
+			}
+		}
+	}
+	return ""
+}
+
+// budgetedOver: fn walks the elements of x (or of an entry x[k] of a map of lists) in a loop and gives up — returns early —
+// when a package-level counter it advances itself reaches a bound: which elements are still served follows their order.
+func (p *Program) budgetedOver(fn *ssa.Function, x ssa.Value) string {
+	derived := map[ssa.Value]bool{x: true}
+	for _, b := range fn.Blocks {
+		for _, in := range b.Instrs {
+			switch e := in.(type) {
+			case *ssa.Lookup:
+				if derived[e.X] {
+					derived[e] = true
+				}
+			case *ssa.Extract:
+				if derived[e.Tuple] {
+					derived[e] = true
+				}
+			}
+		}
+	}
+	walks := false
+	for _, loop := range naturalLoops(fn) {
+		for b := range loop {
+			for _, in := range b.Instrs {
+				switch e := in.(type) {
+				case *ssa.IndexAddr:
+					walks = walks || derived[e.X]
+				case *ssa.Index:
+					walks = walks || derived[e.X]
+				}
+			}
+		}
+	}
+	if !walks {
+		return ""
+	}
+	for _, b := range fn.Blocks {
+		if len(b.Instrs) == 0 {
+			continue
+		}
+		iff, ok := b.Instrs[len(b.Instrs)-1].(*ssa.If)
+		if !ok {
+			continue
+		}
+		cmp, ok := iff.Cond.(*ssa.BinOp)
+		if !ok {
+			continue
+		}
+		g := loadedGlobal(cmp.X)
+		if g == nil {
+			g = loadedGlobal(cmp.Y)
+		}
+		if g == nil || !p.Own[g.Pkg.Pkg] {
+			continue
+		}
+		leaves := false
+		for _, sx := range b.Succs {
+			if len(sx.Instrs) > 0 {
+				if _, isRet := sx.Instrs[len(sx.Instrs)-1].(*ssa.Return); isRet {
+					leaves = true
+				}
+			}
+		}
+		advances := false
+		for _, b2 := range fn.Blocks {
+			for _, in := range b2.Instrs {
+				if st, ok := in.(*ssa.Store); ok && st.Addr == ssa.Value(g) {
+					advances = true
+				}
+			}
+		}
+		if leaves && advances {
+			return shortFn(p.FuncKey(fn)) + " walks it under a budget (it returns early once " + g.Name() + " reaches its bound, " + p.InstrPos(iff) + "), so which elements are still served follows the map's iteration order"
+		}
+	}
+	return ""
 }
 
 // firstMatchThrough: does a first-match search with an element-dependent result run over value x (a parameter of fn), in fn, in
@@ -1460,6 +1611,9 @@ func (p *Program) firstMatchThrough(fn *ssa.Function, x ssa.Value, depth int, se
 	}
 	seen[fn] = true
 	if w := p.firstMatchOver(fn, x); w != "" {
+		return w
+	}
+	if w := p.budgetedOver(fn, x); w != "" {
 		return w
 	}
 	refs := x.Referrers()
@@ -1598,6 +1752,218 @@ func (p *Program) firstMatchOver(fn *ssa.Function, x ssa.Value) string {
 						}
 					}
 					stack = append(stack, b.Succs...)
+				}
+			}
+		}
+	}
+	return ""
+}
+
+// comparesSortedSlice: sort.Slice(x, less) calls less(i, j) with positions of x; a comparator that looks the positions up in
+// another slice orders x by unrelated elements. Both sides are reduced to an origin (through closure bindings, single-store
+// cells, conversions) and compared.
+func comparesSortedSlice(sorted, lessVal ssa.Value, less *ssa.Function) bool {
+	var bindings []ssa.Value
+	if mc, ok := lessVal.(*ssa.MakeClosure); ok {
+		bindings = mc.Bindings
+	}
+	var origin func(v ssa.Value, fn *ssa.Function, depth int) string
+	origin = func(v ssa.Value, fn *ssa.Function, depth int) string {
+		if depth > 8 {
+			return "?"
+		}
+		switch x := v.(type) {
+		case *ssa.MakeInterface:
+			return origin(x.X, fn, depth+1)
+		case *ssa.ChangeType:
+			return origin(x.X, fn, depth+1)
+		case *ssa.Convert:
+			return origin(x.X, fn, depth+1)
+		case *ssa.UnOp:
+			if x.Op == token.MUL {
+				return origin(x.X, fn, depth+1)
+			}
+		case *ssa.FreeVar:
+			for i, fv := range fn.FreeVars {
+				if fv == x && i < len(bindings) && fn == less {
+					return origin(bindings[i], less.Parent(), depth+1)
+				}
+			}
+			return "free:" + x.Name()
+		case *ssa.Alloc:
+			// a cell with a single store stands for the stored value
+			var st *ssa.Store
+			n := 0
+			if refs := x.Referrers(); refs != nil {
+				for _, r := range *refs {
+					if s, ok := r.(*ssa.Store); ok && s.Addr == ssa.Value(x) {
+						st = s
+						n++
+					}
+				}
+			}
+			if n == 1 {
+				return origin(st.Val, fn, depth+1)
+			}
+			return "cell:" + x.Name() + "@" + x.Parent().Name()
+		case *ssa.Lookup:
+			return "lookup(" + origin(x.X, fn, depth+1) + "," + origin(x.Index, fn, depth+1) + ")"
+		case *ssa.Extract:
+			// range value / comma-ok element
+			if nx, ok := x.Tuple.(*ssa.Next); ok {
+				if r, ok := nx.Iter.(*ssa.Range); ok {
+					if x.Index == 2 {
+						return "lookup(" + origin(r.X, fn, depth+1) + ",key:" + nx.Name() + ")"
+					}
+					return "key:" + nx.Name()
+				}
+			}
+			if lk, ok := x.Tuple.(*ssa.Lookup); ok && x.Index == 0 {
+				return origin(lk, fn, depth+1)
+			}
+		case *ssa.Parameter:
+			return "param:" + x.Name() + "@" + x.Parent().Name()
+		case *ssa.Global:
+			return "global:" + x.Name()
+		case *ssa.Field:
+			return origin(x.X, fn, depth+1) + "." + fmt.Sprint(x.Field)
+		case *ssa.FieldAddr:
+			return origin(x.X, fn, depth+1) + "." + fmt.Sprint(x.Field)
+		}
+		if v == nil {
+			return "?"
+		}
+		return "v:" + v.Name() + "@" + fmt.Sprint(v.Parent())
+	}
+	want := origin(sorted, less.Parent(), 0)
+	same := true
+	seen := 0
+	for _, b := range less.Blocks {
+		for _, in := range b.Instrs {
+			var base, idx ssa.Value
+			switch x := in.(type) {
+			case *ssa.IndexAddr:
+				base, idx = x.X, x.Index
+			case *ssa.Index:
+				base, idx = x.X, x.Index
+			default:
+				continue
+			}
+			isPos := false
+			for _, prm := range less.Params {
+				if idx == ssa.Value(prm) {
+					isPos = true
+				}
+			}
+			if !isPos {
+				continue
+			}
+			seen++
+			if origin(base, less, 0) != want {
+				same = false
+			}
+		}
+	}
+	return same && seen > 0
+}
+
+// OrderedProducer: the results of package Pkg reach Consumer, which selects among them by position (the last qualifying
+// element wins); everything Pkg collects in map order therefore shows in the consumer's answer. The checker re-validates on
+// every run that Consumer still calls into Pkg and still selects by position; otherwise the entry binds nothing.
+type OrderedProducer struct {
+	Props    []string `json:"props"`
+	Pkg      string   `json:"pkg"`
+	Consumer string   `json:"consumer"`
+	What     string   `json:"what"`
+}
+
+var orderedProducerMemo = map[string]string{}
+
+func orderedProducerWhy(p *Program, sp *Spec, pkg string) string {
+	for _, op := range sp.Tables.OrderedProducers {
+		if op.Pkg != pkg {
+			continue
+		}
+		k := op.Pkg + "|" + op.Consumer
+		if w, ok := orderedProducerMemo[k]; ok {
+			return w
+		}
+		w := ""
+		if fn := p.Func(op.Consumer); fn != nil {
+			if at := lastWinsOverCallInto(p, fn, pkg); at != "" {
+				w = "the results of this package reach " + shortFn(op.Consumer) + ", which keeps the last qualifying element (" + at + "): " + op.What
+			}
+		}
+		orderedProducerMemo[k] = w
+		return w
+	}
+	return ""
+}
+
+// lastWinsOverCallInto: fn calls a function of package pkg and, in a loop over the elements of that call's result, stores an
+// element-dependent value into a location that is the same on every iteration (not an append): the last iteration wins.
+func lastWinsOverCallInto(p *Program, fn *ssa.Function, pkg string) string {
+	var results []ssa.Value
+	for _, b := range fn.Blocks {
+		for _, in := range b.Instrs {
+			if call, ok := in.(*ssa.Call); ok {
+				if callee := call.Call.StaticCallee(); callee != nil && callee.Pkg != nil && rel(callee.Pkg.Pkg.Path()) == pkg {
+					results = append(results, call)
+				}
+			}
+		}
+	}
+	if len(results) == 0 {
+		return ""
+	}
+	isResult := func(v ssa.Value) bool {
+		for _, r := range results {
+			if r == v {
+				return true
+			}
+		}
+		return false
+	}
+	for _, loop := range naturalLoops(fn) {
+		over := false
+		for b := range loop {
+			for _, in := range b.Instrs {
+				switch e := in.(type) {
+				case *ssa.IndexAddr:
+					over = over || isResult(e.X)
+				case *ssa.Index:
+					over = over || isResult(e.X)
+				}
+			}
+		}
+		if !over {
+			continue
+		}
+		for b := range loop {
+			for _, in := range b.Instrs {
+				st, ok := in.(*ssa.Store)
+				if !ok {
+					continue
+				}
+				if ai, ok := st.Addr.(ssa.Instruction); ok && ai.Block() != nil && loop[ai.Block()] {
+					if _, isFA := st.Addr.(*ssa.FieldAddr); !isFA {
+						continue
+					}
+					// a field address computed inside the loop from loop-invariant operands is still one location
+					if definedInDeep(st.Addr, loop, map[ssa.Value]bool{}) {
+						continue
+					}
+				}
+				if call, ok := st.Val.(*ssa.Call); ok {
+					if bi, ok := call.Call.Value.(*ssa.Builtin); ok && bi.Name() == "append" {
+						continue
+					}
+				}
+				if _, isAlloc := st.Addr.(*ssa.Alloc); isAlloc {
+					continue
+				}
+				if definedInDeep(st.Val, loop, map[ssa.Value]bool{}) {
+					return p.InstrPos(st)
 				}
 			}
 		}
